@@ -715,6 +715,200 @@ fn oracle_traj(r: &Req, out: &str) -> Result<(), String> {
     Ok(())
 }
 
+
+// ---- one pass of the main loop on the real implementation --------------------------------
+//
+// `pass.newton` (oracle only, fixed corpus independent of VERIF_SEED): drives the public pieces
+// of the main loop by hand — residuals.update, calc_mu, scale_cones, kktsystem.update,
+// affine_step_rhs, solve(Affine), calc_step_length, centering_parameter, combined_step_rhs,
+// solve(Combined), add_step — for a few passes and measures, per pass, what the C06 theorems
+// say about an exact Newton step:
+//   * residual contraction (C06.residual_contraction[_array]): r⁺ = (1 − α(1−σ)) r for rx, rz
+//     (and rτ when P = 0), every cone type;
+//   * μ update (C06.mu_update_nn[_array], mu_update_sum + soc_combined_step_aggregated /
+//     symmetric_cone_combined_step): μ⁺ = (1 − α(1−σ))μ − αm(Δsᵃ·Δzᵃ + ΔτᵃΔκᵃ)/(ν+1)
+//     + α²(Δs·Δz + ΔτΔκ)/(ν+1), symmetric cones (nn / SOC incl. sparse expansion / PSD);
+//   * SOC blocks (C06.soc_combined_step_equation): the vector equation
+//     λ∘(WΔz + W⁻¹Δs) = σμe − λ∘λ − (W⁻¹Δsᵃ)∘(W mΔzᵃ) with a reference NT scaling written here;
+//   * orthogonality (C06.newton_step_orthogonality): Δs·Δz + ΔτΔκ = dᵀPd − (Δx·rdx + Δz·rdz + Δτ rdτ).
+// The identities hold up to the accuracy of the regularised + refined linear solves.  Measured on
+// the unchanged tree (fixed corpus): rx 2e-14, rz 1e-12, rτ 6e-16, μ update 8e-12, orthogonality
+// 3e-8 (a cancelling sum); the tolerances leave more than three orders of magnitude head-room.
+const PASS_TOL: f64 = 1e-6;
+const PASS_TOL_ORTH: f64 = 1e-4;
+const PASS_CORPUS: usize = 12;
+
+fn pass_problem(src: &str, k: usize) -> Prob {
+    if src == "corpus" {
+        corpus_problem(k)
+    } else {
+        let kinds = CLASSES.iter().find(|c| c.0 == src).expect("class").1;
+        gen_g_ext(0xBEEF_0000 + k as u64, 6, CONIC_LP_NMAX, Some(kinds))
+    }
+}
+fn ninf(v: &[f64]) -> f64 {
+    v.iter().fold(0.0f64, |a, x| a.max(x.abs()))
+}
+
+/// reference Nesterov–Todd scaling of one second-order cone block at interior (s, z), written
+/// independently of the crate: returns (w̄, η) with W x = η(w̄₀x₀ + w̄₁·x₁, x₁ + (x₀ + w̄₁·x₁/(1+w̄₀)) w̄₁)
+fn soc_nt(sv: &[f64], zv: &[f64]) -> Option<(Vec<f64>, f64)> {
+    let res = |v: &[f64]| v[0] * v[0] - v[1..].iter().map(|x| x * x).sum::<f64>();
+    let (rs, rz) = (res(sv), res(zv));
+    if !(rs > 0.0 && rz > 0.0 && sv[0] > 0.0 && zv[0] > 0.0) {
+        return None;
+    }
+    let (ss, zs) = (rs.sqrt(), rz.sqrt());
+    let eta = (ss / zs).sqrt();
+    let sb: Vec<f64> = sv.iter().map(|x| x / ss).collect();
+    let zb: Vec<f64> = zv.iter().map(|x| x / zs).collect();
+    let gamma = ((1.0 + dot(&sb, &zb)) / 2.0).sqrt();
+    let mut w: Vec<f64> = (0..sv.len()).map(|i| (sb[i] + if i == 0 { zb[i] } else { -zb[i] }) / (2.0 * gamma)).collect();
+    // renormalise as the scaling requires w̄₀² − ‖w̄₁‖² = 1
+    w[0] = (1.0 + w[1..].iter().map(|x| x * x).sum::<f64>()).sqrt();
+    Some((w, eta))
+}
+fn soc_w(w: &[f64], eta: f64, x: &[f64], inv: bool) -> Vec<f64> {
+    let zeta = dot(&w[1..], &x[1..]);
+    let (e, sg) = if inv { (1.0 / eta, -1.0) } else { (eta, 1.0) };
+    let c = sg * x[0] + zeta / (1.0 + w[0]);
+    let mut y = vec![e * (w[0] * x[0] + sg * zeta)];
+    y.extend((1..x.len()).map(|i| e * (x[i] + c * w[i])));
+    y
+}
+fn soc_circ(a: &[f64], b: &[f64]) -> Vec<f64> {
+    let mut y = vec![dot(a, b)];
+    y.extend((1..a.len()).map(|i| a[0] * b[i] + b[0] * a[i]));
+    y
+}
+fn run_pass(r: &Req) -> String {
+    use clarabel::solver::traits::{KKTSystem, Residuals, Variables};
+    use clarabel::verif_hooks::step::{self, ScalingStrategy, StepDirection};
+    let pr = pass_problem(r.str("src"), r.u("k"));
+    let quad = pr.P.iter().any(|row| row.iter().any(|x| *x != 0.0));
+    let mut s = build(&pr);
+    step::solver::default_start(&mut s);
+    let sym = s.cones.is_symmetric();
+    let scaling = if s.cones.allows_primal_dual_scaling() { ScalingStrategy::PrimalDual } else { ScalingStrategy::Dual };
+    let nu1 = (s.cones.degree() + 1) as f64;
+    let (mut ex, mut ez, mut et, mut emu, mut eor, mut esoc) = (0.0f64, 0.0f64, 0.0f64, 0.0f64, 0.0f64, 0.0f64);
+    let rows_ok = s.variables.s.len() == pr.b.len() && !pr.cones.iter().any(|c| matches!(c, PSDTriangleConeT(_)));
+    let mut done = 0;
+    for pass in 0..r.u("passes") {
+        s.residuals.update(&s.variables, &s.data);
+        let mu = s.variables.calc_mu(&s.residuals, &s.cones);
+        if !(mu > 1e-7) {
+            break; // stay in the well-conditioned part of the trajectory
+        }
+        if !s.variables.scale_cones(&mut s.cones, mu, scaling) {
+            break;
+        }
+        if !s.kktsystem.update(&s.data, &s.cones, &s.settings) {
+            break;
+        }
+        s.step_rhs.affine_step_rhs(&s.residuals, &s.variables, &s.cones);
+        if !s.kktsystem.solve(&mut s.step_lhs, &s.step_rhs, &s.data, &s.variables, &mut s.cones, StepDirection::Affine, &s.settings) {
+            break;
+        }
+        let a_aff = s.variables.calc_step_length(&s.step_lhs, &mut s.cones, &s.settings, StepDirection::Affine);
+        let sigma = step::solver::centering_parameter(&s, a_aff);
+        let m = if pass > 0 { 1.0 } else { a_aff };
+        let corr = dot(&s.step_lhs.s, &s.step_lhs.z) + s.step_lhs.τ * s.step_lhs.κ;
+        let (dsa, dza) = (s.step_lhs.s.clone(), s.step_lhs.z.clone());
+        let (s0, z0) = (s.variables.s.clone(), s.variables.z.clone());
+        s.step_rhs.combined_step_rhs(&s.residuals, &s.variables, &mut s.cones, &mut s.step_lhs, sigma, mu, m);
+        if !s.kktsystem.solve(&mut s.step_lhs, &s.step_rhs, &s.data, &s.variables, &mut s.cones, StepDirection::Combined, &s.settings) {
+            break;
+        }
+        let mut a = s.variables.calc_step_length(&s.step_lhs, &mut s.cones, &s.settings, StepDirection::Combined);
+        if !sym {
+            a *= 0.7; // no barrier back-tracking here: stay well inside the nonsymmetric cones
+        }
+        if !(a > 1e-4) {
+            break;
+        }
+        let (rx, rz, rt, ..) = step::residuals::parts(&s.residuals);
+        struct D { x: Vec<f64>, s: Vec<f64>, z: Vec<f64>, τ: f64, κ: f64 }
+        let d = D { x: s.step_lhs.x.clone(), s: s.step_lhs.s.clone(), z: s.step_lhs.z.clone(), τ: s.step_lhs.τ, κ: s.step_lhs.κ };
+        // second-order cone blocks: λ∘(WΔz + W⁻¹Δs) = σμe − λ∘λ − (W⁻¹Δsᵃ)∘(W mΔzᵃ), with a
+        // reference W written here (C06.soc_combined_step_equation)
+        if rows_ok {
+            let mut off = 0;
+            for c in &pr.cones {
+                let dim = cone_dim(c);
+                if let SecondOrderConeT(_) = c {
+                    let rg = off..off + dim;
+                    if let Some((w, eta)) = soc_nt(&s0[rg.clone()], &z0[rg.clone()]) {
+                        let lam = soc_w(&w, eta, &z0[rg.clone()], false);
+                        let wdz = soc_w(&w, eta, &d.z[rg.clone()], false);
+                        let wids = soc_w(&w, eta, &d.s[rg.clone()], true);
+                        let sum: Vec<f64> = wdz.iter().zip(&wids).map(|(p, q)| p + q).collect();
+                        let lhs = soc_circ(&lam, &sum);
+                        let ll = soc_circ(&lam, &lam);
+                        let wza: Vec<f64> = soc_w(&w, eta, &dza[rg.clone()], false).iter().map(|x| m * x).collect();
+                        let wsa = soc_w(&w, eta, &dsa[rg.clone()], true);
+                        let sh = soc_circ(&wsa, &wza);
+                        let nrm = |v: &[f64]| dot(v, v).sqrt();
+                        let sc = nrm(&lam) * (nrm(&wdz) + nrm(&wids)) + sigma * mu + nrm(&ll) + nrm(&wsa) * nrm(&wza) + 1e-300;
+                        for i in 0..dim {
+                            let want = (if i == 0 { sigma * mu } else { 0.0 }) - ll[i] - sh[i];
+                            esoc = esoc.max((lhs[i] - want).abs() / sc);
+                        }
+                    }
+                }
+                off += dim;
+            }
+        }
+        s.variables.add_step(&s.step_lhs, a);
+        s.residuals.update(&s.variables, &s.data);
+        let mu1 = s.variables.calc_mu(&s.residuals, &s.cones);
+        let (rx1, rz1, rt1, dot_qx, dot_bz, _, dot_xpx) = step::residuals::parts(&s.residuals);
+        let f = 1.0 - a * (1.0 - sigma);
+        // scales: the sizes of the terms the residuals are made of
+        let v = &s.variables;
+        let sx = ninf(&rx) + ninf(&v.x) + ninf(&v.z) + v.τ.abs() + 1.0;
+        let sz = ninf(&rz) + ninf(&v.x) + ninf(&v.s) + v.τ.abs() + 1.0;
+        ex = ex.max(rx1.iter().zip(&rx).map(|(n, o)| (n - f * o).abs()).fold(0.0, f64::max) / sx);
+        ez = ez.max(rz1.iter().zip(&rz).map(|(n, o)| (n - f * o).abs()).fold(0.0, f64::max) / sz);
+        if !quad {
+            let st = rt.abs() + dot_qx.abs() + dot_bz.abs() + v.κ.abs() + dot_xpx.abs() + 1.0;
+            et = et.max((rt1 - f * rt).abs() / st);
+        }
+        let second = dot(&d.s, &d.z) + d.τ * d.κ;
+        if sym {
+            let want = f * mu - a * m * corr / nu1 + a * a * second / nu1;
+            let sc = mu.abs() + (a * m * corr / nu1).abs() + (a * a * second / nu1).abs() + 1e-300;
+            emu = emu.max((mu1 - want).abs() / sc);
+        }
+        if !quad {
+            // d'Pd = 0: Δs·Δz + ΔτΔκ = −(Δx·rdx + Δz·rdz + Δτ rdτ), rd = (1−σ) r
+            let t = [dot(&d.x, &rx) * (1.0 - sigma), dot(&d.z, &rz) * (1.0 - sigma), d.τ * rt * (1.0 - sigma)];
+            let sc = t.iter().map(|x| x.abs()).sum::<f64>() + dot(&d.s, &d.s).sqrt() * dot(&d.z, &d.z).sqrt() + (d.τ * d.κ).abs() + 1e-300;
+            eor = eor.max((second + t[0] + t[1] + t[2]).abs() / sc);
+        }
+        done += 1;
+    }
+    format!("passes={} sym={} quad={} ex={} ez={} et={} emu={} eor={} esoc={} cones={}", done, sym as u8, quad as u8, ff(ex), ff(ez), ff(et), ff(emu), ff(eor), ff(esoc), cone_tags(&pr))
+}
+fn oracle_pass(_r: &Req, out: &str) -> Result<(), String> {
+    let o = Req::parse(&format!("x {}", out)).ok_or("parse")?;
+    for (key, what) in [
+        ("ex", "rx+ = (1 - alpha(1-sigma)) rx"),
+        ("ez", "rz+ = (1 - alpha(1-sigma)) rz"),
+        ("et", "rtau+ = (1 - alpha(1-sigma)) rtau (P = 0)"),
+        ("emu", "mu+ = (1 - alpha(1-sigma)) mu - alpha m (dsa.dza + dta dka)/(nu+1) + alpha^2 (ds.dz + dt dk)/(nu+1)"),
+        ("eor", "ds.dz + dt dk = -(dx.rdx + dz.rdz + dt rdt) (P = 0)"),
+        ("esoc", "lambda o (W dz + W^-1 ds) = sigma mu e - lambda o lambda - (W^-1 ds_aff) o (W m dz_aff) on a second-order cone"),
+    ] {
+        let e = o.f(key);
+        let tol = if key == "eor" { PASS_TOL_ORTH } else { PASS_TOL };
+        if !(e <= tol) {
+            return Err(format!("one pass of the main loop violates {}: relative error {:e} > {:e}", what, e, tol));
+        }
+    }
+    Ok(())
+}
+
 fn channels() -> Vec<Channel> {
     let mut v = own_channels();
     v.extend(c05::channels().into_iter().filter(|c| c.name.starts_with("step.") || c.name.starts_with("kkt.")));
@@ -731,6 +925,9 @@ fn own_channels() -> Vec<Channel> {
         Channel { name: "traj.sigma_mu", tol: Tol::Exact, run: run_traj, oracle: Some(oracle_traj), modelled: true,
             rust_fn: "solve(): calc_mu, centering_parameter, Mehrotra damping per pass (observer)",
             lean: "Step.calcMu / Step.centeringParameter / Step.mehrotraM; C06.centering_range, C06.mu_update_nn" },
+        Channel { name: "pass.newton", tol: Tol::Exact, run: run_pass, oracle: Some(oracle_pass), modelled: false,
+            rust_fn: "one hand-driven pass of solve(): affine_step_rhs, combined_step_rhs, kktsystem.solve, add_step, calc_mu (all cone types)",
+            lean: "(oracle) C06.residual_contraction_array, mu_update_nn_array, mu_update_sum, soc_combined_step_aggregated, newton_step_orthogonality" },
     ]
 }
 
@@ -743,11 +940,42 @@ fn percentile(v: &mut [u32], p: f64) -> u32 {
     v[k - 1]
 }
 
+fn gen_pass(s: &mut Session) {
+    // --- one pass of the main loop, fixed corpus (no draws from s.rng)
+    let mut worst = [0.0f64; 6];
+    let mut npass = 0;
+    let srcs: Vec<&str> = std::iter::once("corpus").chain(CLASSES.iter().map(|c| c.0)).collect();
+    for src in srcs {
+        for k in 0..PASS_CORPUS {
+            let out = s.submit(Line::new("pass.newton").s("src", src).u("k", k).u("passes", 4).done());
+            if let Some(o) = Req::parse(&format!("x {}", out)) {
+                if o.has("ex") {
+                    npass += o.u("passes");
+                    for (i, key) in ["ex", "ez", "et", "emu", "eor", "esoc"].iter().enumerate() {
+                        worst[i] = worst[i].max(o.f(key));
+                    }
+                }
+            }
+        }
+    }
+    s.note(format!(
+        "pass.newton: {} hand-driven passes; largest relative error: rx {:e}, rz {:e}, rtau {:e}, mu update {:e}, orthogonality {:e}, SOC complementarity {:e} (tolerances {:e}, orthogonality {:e})",
+        npass, worst[0], worst[1], worst[2], worst[3], worst[4], worst[5], PASS_TOL, PASS_TOL_ORTH));
+}
+
 fn generate(s: &mut Session) {
+    if std::env::var("C06_ONLY_PASS").is_ok() {
+        // debugging aid: only the hand-driven passes
+        gen_pass(s);
+        return;
+    }
     c05::gen_step_cases(s);
     if s.is_searching() {
         return;
     }
+    // --- one pass of the main loop (fixed corpus, no draws from s.rng: the instance stream of
+    // the families below is unchanged)
+    gen_pass(s);
     // --- trajectory corpus (fixed)
     for k in 0..30 {
         let t = record(&corpus_problem(k));
